@@ -6,7 +6,7 @@ MapKeys == <<K("int", "1"), K("int", "2"), K("str", "\"1\""), K("str", "\"a\""),
              K("bool", "false"), K("arr", "[1]"), K("arr", "[]"), K("obj", "{a: 1}"), K("str", "\"b\""),
              K("float", "1.0000001"), K("float", "1.0000002"),
              K("arr", "B1"), K("range", "(1:2)"), K("range", "R1"),
-             K("int", "5"), K("intdesc", "I5")>>      \* I5 is 5.bear: not a scalar key (found by ==, listed after the scalars), and not the key 5     \* distinct keys that print alike
+             K("int", "5"), K("intdesc", "I5"), K("str", "\"len\"")>>      \* I5 is 5.bear: not a scalar key (found by ==, listed after the scalars), and not the key 5     \* distinct keys that print alike
 ObjNames == <<"a", "b", "_p", "a!", "_p!">>
 (* operands available for ** (values 100.. so that their origin is visible) *)
 M1 == <<[k |-> K("int", "1"), v |-> 100], [k |-> K("str", "\"a\""), v |-> 101], [k |-> K("arr", "[1]"), v |-> 102], [k |-> K("str", "\"c\""), v |-> 103]>>
@@ -19,16 +19,18 @@ Flatten(xs) == IF xs = <<>> THEN <<>> ELSE Operand(Head(xs)) \o Flatten(Tail(xs)
 
 RECURSIVE IdxSeqs(_, _)
 IdxSeqs(n, len) == IF len = 0 THEN {<<>>} ELSE {Append(s, i) : s \in IdxSeqs(n, len - 1), i \in 1..n}
-VARIABLES kind, keys, spreads
-vars == <<kind, keys, spreads>>
+VARIABLES kind, keys, spreads, nilat        \* nilat: the explicit pair whose value is nil (0: none); -2 stands for a STORED nil, -1 for "absent"
+vars == <<kind, keys, spreads, nilat>>
 Init ==
   \/ /\ kind = "obj" /\ keys \in UNION {IdxSeqs(Len(ObjNames), l) : l \in 0..MaxPairs}
      /\ spreads \in {<<>>, <<"O1">>, <<"O2">>, <<"O1", "O2">>, <<"O2", "O1">>}
+     /\ nilat \in 0..Len(keys)
   \/ /\ kind = "map" /\ keys \in UNION {IdxSeqs(Len(MapKeys), l) : l \in 0..MaxPairs}
      /\ spreads \in {<<>>, <<"M1">>, <<"O1">>, <<"M1", "O1">>, <<"O2", "M1">>, <<"M1", "M2">>, <<"M2", "M1">>, <<"M2", "O2", "M1">>}
+     /\ nilat \in 0..Len(keys)
 Next == UNCHANGED vars
 
-Explicit == [i \in 1..Len(keys) |-> [k |-> IF kind = "obj" THEN NameKey(ObjNames[keys[i]]) ELSE MapKeys[keys[i]], v |-> i]]
+Explicit == [i \in 1..Len(keys) |-> [k |-> IF kind = "obj" THEN NameKey(ObjNames[keys[i]]) ELSE MapKeys[keys[i]], v |-> IF i = nilat THEN -2 ELSE i]]
 (* explicit pairs first, then the operands in the order written *)
 All == Explicit \o Flatten(spreads)
 TheMap == MapOf(All)
